@@ -171,6 +171,7 @@ func (mq *MessageQueue) runQueue() {
 	for {
 		select {
 		case <-mq.outgoingWork:
+			mq.verifAt("wake", 0, nil)
 			mq.sendMessage()
 		case <-mq.done:
 			// fail whatever is still queued, whether or not its work signal has arrived yet
